@@ -649,6 +649,7 @@ def c07(case, obs, crash):
 
 # ---------------------------------------------------------------- C04 / C05 (reference decode)
 import refdec  # noqa: E402
+import iana  # noqa: E402
 
 
 def val_diff(exp, got, path):
@@ -699,7 +700,10 @@ def c04_packet(dec, p, e, pads, tables):
         kind = body[0][0]
         want = {"T": "Template", "O": "OptionsTemplate", "D": "Data", "OD": "OptionsData"}[x[0]]
         if kind != want:
-            f.append((None, "flowset %d (id %d): sent %s, reported %s" % (i, x[1], want, kind)))
+            # V9 consults the options map first: a plain template that supersedes an options template
+            # of the same id is ignored (the stale options template decodes the data)
+            cls = "K_C06_kind_change" if (x[0] == "D" and kind == "OptionsData" and x[1] in dec.kind_changed_v9) else None
+            f.append((cls, "flowset %d (id %d): sent %s, reported %s" % (i, x[1], want, kind)))
             continue
         inner = body[0][1]
         if x[0] == "T":
@@ -770,7 +774,10 @@ def c05_packet(dec, p, e, pads, tables):
     if multi:
         return f + [("K_C05_multi_template", "a template set with more than one template record is decoded as one merged template")]
     if len(got) != len(sets):
-        return f + [(None, "IPFIX message with %d sets reported with %d" % (len(sets), len(got)))]
+        # a data set decoded with the stale plain template of an id that has become an options
+        # template may not fit that template at all: the set fails and the rest of the message goes with it
+        kc = any(x[0] == "OD" and x[1] in dec.kind_changed_ix for x in sets)
+        return f + [("K_C06_kind_change" if kc else None, "IPFIX message with %d sets reported with %d" % (len(sets), len(got)))]
     for i, (x, g) in enumerate(zip(sets, got)):
         gh = plain(get(g, "header"))
         if gh.get("header_id") != x[1] or gh.get("length") != x[2]:
@@ -779,7 +786,10 @@ def c05_packet(dec, p, e, pads, tables):
         kind = body[0][0]
         want = {"T": "Template", "O": "OptionsTemplate", "D": "Data", "OD": "OptionsData"}[x[0]]
         if kind != want:
-            f.append((None, "set %d (id %d): sent %s, reported %s" % (i, x[1], want, kind)))
+            # IPFIX consults the templates map first: an options template that supersedes a plain
+            # template of the same id is ignored (the stale plain template decodes the data)
+            cls = "K_C06_kind_change" if (x[0] == "OD" and kind == "Data" and x[1] in dec.kind_changed_ix) else None
+            f.append((cls, "set %d (id %d): sent %s, reported %s" % (i, x[1], want, kind)))
             continue
         inner = body[0][1]
         if x[0] in ("T", "O"):
@@ -838,7 +848,9 @@ def c0405(case, obs, crash, tables, which):
     pk = case.meta.get("packets")
     if not pk:
         return f
+    # names of assigned protocol numbers come from the frozen IANA list, not from the crate
     proto_names = {n: v[2] for n, v in tables.proto.items() if v[2] != "-"}
+    proto_names.update(iana.PROTO)
     decs = {}
     # element stream per parser, in order
     bp = by_parser(case, obs)
@@ -1010,6 +1022,10 @@ def c10(case, obs, crash, tables):
 
 V9_NAMES = {"src4": "Ipv4SrcAddr", "src6": "Ipv6SrcAddr", "dst4": "Ipv4DstAddr", "dst6": "Ipv6DstAddr", "sport": "L4SrcPort",
             "dport": "L4DstPort", "proto": "Protocol", "first": "FirstSwitched", "last": "LastSwitched", "smac": "InSrcMac", "dmac": "InDstMac"}
+# the element numbers behind the projected fields: RFC 3954 table 6 / IANA IPFIX registry (the same
+# numbers in both protocols)
+ROLE_NUMBERS = {"src4": 8, "dst4": 12, "src6": 27, "dst6": 28, "sport": 7, "dport": 11, "proto": 4,
+                "first": 22, "last": 21, "smac": 56, "dmac": 80}
 IX_NAMES = {"src4": "SourceIpv4address", "src6": "SourceIpv6address", "dst4": "DestinationIpv4address", "dst6": "DestinationIpv6address",
             "sport": "SourceTransportPort", "dport": "DestinationTransportPort", "proto": "ProtocolIdentifier",
             "first": "FlowStartSysUpTime", "last": "FlowEndSysUpTime", "smac": "SourceMacaddress", "dmac": "DestinationMacaddress"}
@@ -1097,6 +1113,8 @@ def c13(case, obs, crash, tables):
     proto_from = {n: v[0] for n, v in tables.proto.items()} if tables else {}
     widths = {"src_port": 16, "dst_port": 16, "protocol_number": 8, "first_seen": 32, "last_seen": 32}
     ops = parse_ops(case)
+    live_all = {}
+    last_S = {}
     for k, (o, op) in enumerate(zip(obs, ops)):
         if op[0] == "F":
             continue
@@ -1104,6 +1122,15 @@ def c13(case, obs, crash, tables):
         C = get(o, "C")
         if not isinstance(R, list) or isinstance(R, canon.Pairs) or C is None:
             continue
+        live = live_all.setdefault(op[1], {"V9": {}, "IPFix": {}})
+        Sprev = last_S.get(op[1])
+        if Sprev is not None:
+            # what the parser held when this call began (authoritative: includes templates learned
+            # by packets that failed later in an earlier call)
+            live["V9"] = {e_[0]: (get(e_[1], "fields") or []) for e_ in get(Sprev, "v9_t") or []}
+            live["IPFix"] = {e_[0]: (get(e_[1], "fields") or []) for e_ in get(Sprev, "ix_t") or []}
+        if get(o, "S") is not None:
+            last_S[op[1]] = get(o, "S")
         for j, (e, c) in enumerate(zip(R, C)):
             kind = elem_kind(e)
             if kind == "Error":
@@ -1138,29 +1165,61 @@ def c13(case, obs, crash, tables):
             names = V9_NAMES if kind == "V9" else IX_NAMES
             pre = "K_C13_v9" if kind == "V9" else "K_C13_ipfix"
             records = []
+            tmap = live[kind]
+
+            def by_number(fid, rec):
+                """name the record's values by the element NUMBER the template gave them (RFC 3954 /
+                IANA numbers of the projected fields), not by the library's name for that number:
+                a wrong row in the name table must not carry over into the expectation"""
+                fields = tmap.get(fid)
+                if not fields:
+                    return rec, names
+                if len(fields) != len(rec):
+                    return rec, names
+                out = []
+                for q, (_nm, v) in zip(fields, rec):
+                    ent = get(q, "enterprise_number")
+                    out.append((("#E%d" if ent is not None else "#%d") % get(q, "field_type_number"), v))
+                return out, {role: "#%d" % n for role, n in ROLE_NUMBERS.items()}
+
+            rec_names = []
             for fs in get(b, "flowsets"):
                 body = get(fs, "body")
+                if body[0][0] == "Template":
+                    # the definition in force for the data that follows (in this packet or later)
+                    inner = body[0][1]
+                    for t in (get(inner, "templates") if get(inner, "templates") is not None else [inner]):
+                        tmap[get(t, "template_id")] = get(t, "fields") or []
                 if body[0][0] != "Data":
                     continue
+                fh = get(fs, "header")
+                fid = get(fh, "flowset_id", get(fh, "header_id"))
                 if kind == "V9":
                     for rec in get(body[0][1], "fields"):
-                        records.append([(tv[0], tv[1]) for _key, tv in rec])
+                        r2, nm = by_number(fid, [(tv[0], tv[1]) for _key, tv in rec])
+                        records.append(r2)
+                        rec_names.append(nm)
                 else:
                     cur = None
+                    group = []
                     for m in get(body[0][1], "fields"):
                         key, tv = m[0]
                         if key == "0" or cur is None:
                             cur = []
-                            records.append(cur)
+                            group.append(cur)
                         cur.append((tv[0], tv[1]))
+                    for cur in group:
+                        r2, nm = by_number(fid, cur)
+                        records.append(r2)
+                        rec_names.append(nm)
             if len(flows) != len(records):
                 if kind == "IPFix" and len(flows) == sum(len(r) for r in records) and any(len(r) > 1 for r in records):
                     f.append(("K_C13_ipfix_per_field", "IPFIX data with %d records of several fields yields %d common flows (one per field)" % (len(records), len(flows))))
                 else:
                     f.append((None, "op %d: %s %d data records, %d common flows" % (k, kind, len(records), len(flows))))
                 continue
-            for rec, fl in zip(records, flows):
-                exp, classes = project(rec, names, proto_from, pre)
+            for rec, fl, nm in zip(records, flows, rec_names):
+                exp, classes = project(rec, nm, proto_from, pre)
                 for cls, msg in flow_diff(exp, fl, widths, pre, proto_from):
                     f.append((cls, "op %d: %s: %s" % (k, kind, msg)))
                 gl = plain(fl)
